@@ -2,12 +2,36 @@ import CedarVerif.Cedar.Pattern
 import CedarVerif.Lemmas.NoPanicLike
 import CedarVerif.Lemmas.NoPanicUtf8
 import CedarVerif.Lemmas.NoPanicDatetime
+import CedarVerif.Lemmas.NoPanicCollections
+import CedarVerif.Lemmas.NoPanicDispatch
+import CedarVerif.Lemmas.NoPanicPartialResponse
+import CedarVerif.Lemmas.NoPanicUnescape
+import CedarVerif.Thm.C08
 /-
 C20 — No panics on arbitrary input (mirrored components).
 
 Each mirror keeps the Rust panic site (`[]` indexing, `unwrap`, `expect`, slice on a char boundary) as an explicit
-outcome; the theorems say that outcome is unreachable for ALL inputs. Scope: the mirrored components only — every other
-entry point is covered by the malformed-input stream of the harness (evidence = counts, not theorems).
+outcome; the theorems say that outcome is unreachable for ALL inputs (or for all states satisfying the named data-structure
+invariant). Scope: the mirrored components only — every other entry point is covered by the malformed-input stream of the
+harness ("no panic on the explored inputs": evidence = counts, not theorems).
+
+Mirrored sites and what is proved:
+ (a) `Pattern::wildcard_match` `pattern[j]`/`text[i]`                       unreachable, all inputs      no_panic_wildcard
+ (b) `contains_at_least_two` `s.get(..).unwrap()`                           unreachable, all inputs      no_panic_contains_at_least_two
+ (c) `parse_datetime` 12 `parse().unwrap()`, 3 slices, TimeDelta, chrono +  unreachable, all inputs      no_panic_datetime_captures
+ (d) `FromIterator<Value> for Set` `unreachable!()`                         unreachable, all inputs      no_panic_set_from_iter
+ (e) evaluator `Record` arm `Expr::record(..).expect(..)` (2 copies)        unreachable when the keys of the record
+     expression are pairwise distinct (the `BTreeMap` invariant)                                        no_panic_record_residual(_of_expr)
+ (f) evaluator `binary_relation`/`binary_arith`/`GetTag|HasTag` `unreachable!` unreachable from the evaluator's dispatch, all
+     operators and values; REACHABLE by calling the two public helpers directly with another operator
+                                                                     no_panic_binary_dispatch, binary_{relation,arith}_panics_iff
+ (g) `PartialResponse` accessors -> `Policy::new` `expect` (debug builds)   REACHABLE (known finding C13-residual-slot-panic);
+     unreachable iff no residual keeps a template slot; `definitely_satisfied`/`must_be_determining` never
+                                            no_panic_partial_response, partial_response_panics_iff, partial_response_panic_reachable
+ (i) `Unescape::unescape` range arithmetic (rustc_literal_escaper 0.0.8), `to_pattern` `&bytes[range]`, `Display for
+     UnescapeError` `&self.input[self.range]`                               unreachable, all inputs      no_panic_unescape_slices
+ (h) `ast::PolicySet` `panic!` sites of `unlink`/`remove_template`, `unwrap` in `merge_policyset`: proved in C08, cited here
+                                                                     no_panic_policyset_op, no_panic_policyset_history, no_panic_policyset_merge
 -/
 namespace Cedar.C20
 open Cedar
@@ -163,5 +187,365 @@ open Cedar.NoPanic in
 example : parseU32 "4294967295".toList = some 4294967295 := by decide +kernel
 open Cedar.NoPanic in
 example : parseU32 [] = none := by decide +kernel
+
+/-! ### (d) `impl FromIterator<Value> for Set` (cedar-policy-core/src/ast/value.rs)
+
+Mirror `NoPanic.setFromIter` (`Cedar/NoPanic/Collections.lean`): partition into `literals`/`non_literals`, and when
+`non_literals` is empty map every element of `literals` through `Lit(lit) => lit, _ => unreachable!()`. -/
+
+open Cedar.NoPanic in
+/-- the `unreachable!()` arm is never taken: every element of `literals` passed the partition predicate -/
+theorem no_panic_set_from_iter (vs : List Value) : ∀ site, setFromIter vs ≠ .panic site := by
+  intro site h
+  obtain ⟨s, hs⟩ := setFromIter_built vs
+  rw [hs] at h
+  cases h
+
+open Cedar.NoPanic in
+/-- and the set that is built satisfies the type's `FastRepr` invariant; `fast` is populated iff every element is a literal -/
+theorem set_from_iter_fast_repr (vs : List Value) (s : SetRepr) (h : setFromIter vs = .built s) :
+    s.FastRepr ∧ s.fast.isSome = vs.all NoPanic.isLit :=
+  ⟨setFromIter_fastRepr vs s h, setFromIter_fast_iff vs s h⟩
+
+-- non-vacuity: both branches; the closure really has a failing arm when applied to a non-literal
+open Cedar.NoPanic in
+example : (match setFromIter [.prim (.int 1), .prim (.int 1), .prim (.bool true)] with
+    | .built s => s.fast == some [.int 1, .bool true] | _ => false) = true := by decide +kernel
+open Cedar.NoPanic in
+example : (match setFromIter [.prim (.int 1), .set [], .prim (.int 2)] with
+    | .built s => s.fast.isNone && s.authoritative.length == 3 | _ => false) = true := by decide +kernel
+open Cedar.NoPanic in
+example : (match setFromIter [] with | .built s => s.fast == some [] | _ => false) = true := by decide +kernel
+open Cedar.NoPanic in
+example : litsOf [.prim (.int 1), .set []] = none := rfl
+
+/-! ### (e) the `Record` arm of `partial_interpret_internal` (cedar-policy-core/src/evaluator.rs, both evaluators)
+
+Mirror `NoPanic.recordArm`: `unzip`, `split`, then `Expr::record(names.zip(rs)).expect(..)` with `ExprBuilder::record`'s
+`Occupied => Err(DuplicateKeyError)` loop written out. The Rust comment's argument ("`names` is the set of keys of the input
+`BTreeMap`") is the hypothesis `Nodup`; `split` preserving the length is proved. -/
+
+open Cedar.NoPanic in
+/-- pairwise distinct keys: the `expect` cannot fail -/
+theorem no_panic_record_residual (map : List (String × PartialValue)) (h : (map.map (·.1)).Nodup) :
+    ∀ site, recordArm map ≠ .panic site :=
+  recordArm_safe map h
+
+open Cedar.NoPanic in
+/-- at the call site: `map` is what interpreting the fields of a record EXPRESSION produced (`collectPVKVs`, any field
+interpreter `f`), so its keys are those of the expression — distinct because the expression holds a `BTreeMap` -/
+theorem no_panic_record_residual_of_expr (f : Expr → PRes) (kvs : List (String × Expr)) (h : (kvs.map (·.1)).Nodup)
+    (pkvs : List (String × PartialValue)) (hc : collectPVKVs f kvs = .ok pkvs) :
+    ∀ site, recordArm pkvs ≠ .panic site :=
+  recordArm_safe pkvs (by rw [collectPVKVs_keys f kvs pkvs hc]; exact h)
+
+open Cedar.NoPanic in
+/-- with the keys in `BTreeMap` iteration order (strictly ascending) the residual is the zipped list itself: the expression
+`pinterp`/`rinterp` of the C13 model (`Cedar/Partial.lean`) return at this point -/
+theorem record_residual_eq_model (map : List (String × PartialValue)) (h : CJson.Sorted (map.map (·.1)))
+    (rs : List Expr) (hs : splitPV (map.map (·.2)) = .inr rs) :
+    recordArm map = .residual ((map.map (·.1)).zip rs) :=
+  recordArm_residual_sorted map h rs hs
+
+open Cedar.NoPanic in
+/-- the `Occupied` arm of `ExprBuilder::record` is real: a key occurring twice is refused -/
+theorem expr_record_refuses_duplicate (k : String) (v w : Expr) (pre mid post : List (String × Expr)) :
+    ∃ k', exprRecord (pre ++ (k, v) :: mid ++ (k, w) :: post) = .error k' := by
+  unfold exprRecord
+  by_cases hn : ((pre ++ (k, v) :: mid ++ (k, w) :: post).map (·.1)).Nodup
+  · exfalso
+    simp only [List.map_append, List.map_cons, List.append_assoc, List.cons_append] at hn
+    have h1 := (List.nodup_append.mp hn).2.1
+    have h2 := (List.nodup_cons.mp h1).1
+    exact h2 (by simp)
+  · -- some key repeats: find the first repetition
+    have key : ∀ (pairs map : List (String × Expr)), (map.map (·.1)).Nodup →
+        ¬ (map.map (·.1) ++ pairs.map (·.1)).Nodup → ∃ k', exprRecordGo pairs map = .error k' := by
+      intro pairs
+      induction pairs with
+      | nil => intro map h1 h2; simp at h2; exact absurd h1 h2
+      | cons p rest ih =>
+        intro map h1 h2
+        obtain ⟨k0, v0⟩ := p
+        by_cases hm : k0 ∈ map.map (·.1)
+        · exact exprRecordGo_dup _ _ k0 (by simp) hm
+        · have hl : lookupKV map k0 = none := (lookupKV_none_iff k0 map).mpr hm
+          simp only [exprRecordGo, hl]
+          apply ih
+          · -- keys of insertKV are k0 :: keys map up to permutation; Nodup is preserved
+            have hperm : ∀ x, x ∈ (insertKV k0 v0 map).map (·.1) ↔ x = k0 ∨ x ∈ map.map (·.1) := keys_insertKV k0 v0 map
+            clear h2 ih hl
+            induction map with
+            | nil => simp [insertKV]
+            | cons q qs ihq =>
+              obtain ⟨k1, v1⟩ := q
+              simp only [List.map_cons, List.mem_cons, not_or] at hm
+              simp only [List.map_cons, List.nodup_cons] at h1
+              unfold insertKV
+              by_cases c1 : k0 < k1
+              · simp only [c1, if_true, List.map_cons, List.nodup_cons, List.mem_cons, not_or]
+                exact ⟨⟨hm.1, hm.2⟩, h1.1, h1.2⟩
+              · have c2 : (k0 == k1) = false := by simpa using hm.1
+                simp only [c1, if_false, c2, Bool.false_eq_true, List.map_cons, List.nodup_cons]
+                refine ⟨?_, ihq h1.2 hm.2 (keys_insertKV k0 v0 qs)⟩
+                intro hmem
+                rcases (keys_insertKV k0 v0 qs k1).mp hmem with rfl | hmem
+                · exact hm.1 rfl
+                · exact h1.1 hmem
+          · intro hnd
+            apply h2
+            simp only [List.map_cons]
+            rw [List.nodup_append] at hnd ⊢
+            obtain ⟨_, hr, hd⟩ := hnd
+            refine ⟨h1, List.nodup_cons.mpr ⟨?_, hr⟩, ?_⟩
+            · intro hk
+              exact hd k0 ((keys_insertKV k0 v0 map k0).mpr (Or.inl rfl)) k0 hk rfl
+            · intro a ha b hb
+              rcases List.mem_cons.mp hb with rfl | hb
+              · intro he; subst he; exact hm ha
+              · exact hd a ((keys_insertKV k0 v0 map a).mpr (Or.inr ha)) b hb
+    exact key _ [] List.nodup_nil (by simpa using hn)
+
+-- non-vacuity: a residual record is built; with a repeated key (impossible for a `BTreeMap`) the site IS reached
+open Cedar.NoPanic in
+example : (match recordArm [("a", .value (.prim (.int 1))), ("b", .residual (.unknown "x" none))] with
+    | .residual [("a", .lit (.int 1)), ("b", .unknown "x" none)] => true | _ => false) = true := rfl
+open Cedar.NoPanic in
+example : (match recordArm [("a", .value (.prim (.int 1))), ("b", .value (.prim (.int 2)))] with
+    | .value [("a", .prim (.int 1)), ("b", .prim (.int 2))] => true | _ => false) = true := by decide +kernel
+open Cedar.NoPanic in
+example : ∃ site, recordArm [("a", .residual (.unknown "x" none)), ("a", .value (.prim (.int 1)))] = .panic site := ⟨_, rfl⟩
+
+/-! ### (f) operator dispatch of the `BinaryApp` arm (cedar-policy-core/src/evaluator.rs)
+
+Mirror `NoPanic.binaryDispatch` (`Cedar/NoPanic/Dispatch.lean`): outer `match op`, then `binary_relation`, `binary_arith` and the
+`GetTag | HasTag` arm each with their inner `match op { …, _ => unreachable!() }`. -/
+
+open Cedar.NoPanic in
+/-- from the evaluator none of the three `unreachable!` arms is taken, for every operator and every pair of values -/
+theorem no_panic_binary_dispatch (es : Entities) (op : BinaryOp) (v1 v2 : Value) :
+    ∀ site, binaryDispatch es op v1 v2 ≠ .panic site := by
+  intro site h
+  rw [binaryDispatch_eq] at h
+  cases h
+
+open Cedar.NoPanic in
+/-- the two-level dispatch computes the one-level table `applyBinary` of the concrete evaluator model (C01's subject) -/
+theorem binary_dispatch_eq_applyBinary (es : Entities) (op : BinaryOp) (v1 v2 : Value) :
+    binaryDispatch es op v1 v2 = .ret (applyBinary es op v1 v2) :=
+  binaryDispatch_eq es op v1 v2
+
+open Cedar.NoPanic in
+/-- `pub fn binary_relation` called directly: panics exactly for the nine operators its caller filters out (whatever the values) -/
+theorem binary_relation_panics_iff (op : BinaryOp) (v1 v2 : Value) :
+    (∃ site, binaryRelation op v1 v2 = .panic site) ↔ (op ≠ .eq ∧ op ≠ .less ∧ op ≠ .lessEq) :=
+  binaryRelation_panics_iff' op v1 v2
+
+open Cedar.NoPanic in
+/-- `pub fn binary_arith` called directly: panics exactly for an operator other than `+ - *` applied to two longs (a non-long
+operand returns the type error first) -/
+theorem binary_arith_panics_iff (op : BinaryOp) (v1 v2 : Value) :
+    (∃ site, binaryArith op v1 v2 = .panic site) ↔
+      ((op ≠ .add ∧ op ≠ .sub ∧ op ≠ .mul) ∧ ∃ i1 i2, v1 = .prim (.int i1) ∧ v2 = .prim (.int i2)) :=
+  binaryArith_panics_iff' op v1 v2
+
+-- non-vacuity: each inner match is entered; direct calls outside the contract reach the sites
+open Cedar.NoPanic in
+example : (match binaryDispatch [] .lessEq (.prim (.int 1)) (.prim (.int 1)) with
+    | .ret (.ok (.prim (.bool true))) => true | _ => false) = true := by decide +kernel
+open Cedar.NoPanic in
+example : (match binaryDispatch [] .mul (.prim (.int 4611686018427387904)) (.prim (.int 2)) with
+    | .ret (.error .overflow) => true | _ => false) = true := by decide +kernel
+open Cedar.NoPanic in
+example : (match binaryDispatch [] .hasTag (.prim (.entityUID ⟨"U", "a"⟩)) (.prim (.string "t")) with
+    | .ret (.ok (.prim (.bool false))) => true | _ => false) = true := by decide +kernel
+open Cedar.NoPanic in
+example : ∃ site, binaryArith .eq (.prim (.int 1)) (.prim (.int 2)) = .panic site := ⟨_, rfl⟩
+open Cedar.NoPanic in
+example : (match binaryArith .eq (.prim (.int 1)) (.prim (.bool true)) with
+    | .ret (.error .type) => true | _ => false) = true := rfl
+open Cedar.NoPanic in
+example : ∃ site, binaryRelation .contains (.set []) (.prim (.int 2)) = .panic site := ⟨_, rfl⟩
+
+/-! ### (g) `PartialResponse` (cedar-policy-core/src/authorizer/partial_response.rs)
+
+Mirror `Cedar/NoPanic/PartialResponse.lean` over the C13 model's `PartialResponse`: every accessor returning policies builds
+them with `construct_policy` → `Policy::new(template, None, SlotEnv::new())`, whose debug-build `expect("(values total map) does
+not hold!")` fails iff the residual mentions a template slot. -/
+
+open Cedar.NoPanic in
+/-- the precise hypothesis: no residual (permit or forbid) keeps a template slot. Then no accessor panics: `definitely_satisfied`,
+`may_be_determining`, `must_be_determining`, `nontrivial_residuals`, `all_residuals`, `get(id)` for every id, and `reauthorize`
+for every mapping and store — and `reauthorize` is the function of the C13 model. -/
+theorem no_panic_partial_response (pr : PartialResponse) (h : pr.residualPoliciesPanic = false) :
+    (∀ s, definitelySatisfied pr ≠ .panic s) ∧ (∀ s, mayBeDetermining pr ≠ .panic s) ∧
+    (∀ s, mustBeDetermining pr ≠ .panic s) ∧ (∀ s, nontrivialResiduals pr ≠ .panic s) ∧
+    (∀ s, allResiduals pr ≠ .panic s) ∧ (∀ id s, get pr id ≠ some (.panic s)) ∧
+    (∀ m es s, reauthorize pr m es ≠ .panic s) ∧
+    (∀ m es, reauthorize pr m es = match pr.reauthorize m es with | .ok r => .ok r | .error e => .err e) := by
+  have hmay : pr.mayPanics = false := by
+    unfold PartialResponse.residualPoliciesPanic at h
+    rw [Bool.or_eq_false_iff] at h
+    unfold PartialResponse.mayPanics
+    split <;> simp [h.1, h.2]
+  refine ⟨(not_isPanic_iff _).mp (definitelySatisfied_safe pr), (not_isPanic_iff _).mp ?_,
+    (not_isPanic_iff _).mp (mustBeDetermining_safe pr), (not_isPanic_iff _).mp ?_, (not_isPanic_iff _).mp ?_, ?_, ?_,
+    fun m es => reauthorize_eq pr m es h⟩
+  · rw [mayBeDetermining_isPanic, hmay]
+  · rw [nontrivialResiduals_isPanic, h]
+  · rw [allResiduals_isPanic, h]
+  · intro id s hg
+    have := get_safe pr h id _ hg
+    simp [PolOutcome.isPanic] at this
+  · intro m es s hr
+    rw [reauthorize_eq pr m es h] at hr
+    split at hr <;> cases hr
+
+open Cedar.NoPanic in
+/-- two accessors only ever construct policies from `true_expr`: no hypothesis needed -/
+theorem no_panic_partial_response_trivial (pr : PartialResponse) :
+    (∀ s, definitelySatisfied pr ≠ .panic s) ∧ (∀ s, mustBeDetermining pr ≠ .panic s) :=
+  ⟨(not_isPanic_iff _).mp (definitelySatisfied_safe pr), (not_isPanic_iff _).mp (mustBeDetermining_safe pr)⟩
+
+open Cedar.NoPanic in
+/-- exact reachability conditions — they are the predicates of the C13 model (`mayPanics`, `residualPoliciesPanic`), and the
+only site is `Policy::new` -/
+theorem partial_response_panics_iff (pr : PartialResponse) :
+    ((∃ s, mayBeDetermining pr = .panic s) ↔ pr.mayPanics = true) ∧
+    ((∃ s, allResiduals pr = .panic s) ↔ pr.residualPoliciesPanic = true) ∧
+    ((∃ s, nontrivialResiduals pr = .panic s) ↔ pr.residualPoliciesPanic = true) ∧
+    (pr.residualPoliciesPanic = true → ∀ m es, reauthorize pr m es = .panic policyNewSite ∧ pr.reauthorize m es = .error .panic) := by
+  have conv : ∀ o : PolsOutcome, (∃ s, o = .panic s) ↔ o.isPanic = true := by
+    intro o; cases o <;> simp [PolsOutcome.isPanic]
+  refine ⟨?_, ?_, ?_, fun h m es => reauthorize_panics pr m es h⟩
+  · rw [conv, mayBeDetermining_isPanic]
+  · rw [conv, allResiduals_isPanic]
+  · rw [conv, nontrivialResiduals_isPanic]
+
+/-- the site IS reachable from public entry points (known finding C13-residual-slot-panic): a template-linked policy
+`context.k && (1 + "s" == ?principal)`; `context.k` is residual, the right operand errors, the best-effort fall-back keeps the
+ORIGINAL operand with its unlinked slot; `may_be_determining` and `reauthorize` then panic, `must_be_determining` does not. -/
+theorem partial_response_panic_reachable :
+    let preq : PRequest := ⟨.known ⟨"U", "a"⟩, .known ⟨"A", "x"⟩, .known ⟨"R", "r"⟩, some (.residual [("k", .unknown "k" none)])⟩
+    let p : Policy := ⟨"link1", .permit,
+      .and (.getAttr (.var .context) "k") (.binaryApp .eq (.binaryApp .add (.lit (.int 1)) (.lit (.string "s"))) (.slot .principal)),
+      [(.principal, ⟨"U", "a"⟩)]⟩
+    let pr := isAuthorizedCore [] preq ⟨[], false⟩ [p]
+    pr.residualPoliciesPanic = true ∧
+    NoPanic.mayBeDetermining pr = .panic NoPanic.policyNewSite ∧
+    NoPanic.reauthorize pr [] ⟨[], false⟩ = .panic NoPanic.policyNewSite ∧
+    NoPanic.mustBeDetermining pr = .policies [] := by
+  intro preq p pr
+  have h1 : pr.residualPoliciesPanic = true := by decide +kernel
+  refine ⟨h1, ?_, (NoPanic.reauthorize_panics pr [] ⟨[], false⟩ h1).1, ?_⟩
+  · have hp : (NoPanic.mayBeDetermining pr).isPanic = true := by
+      rw [NoPanic.mayBeDetermining_isPanic]; decide +kernel
+    cases hm : NoPanic.mayBeDetermining pr with
+    | policies ps => rw [hm] at hp; cases hp
+    | panic s =>
+      congr 1
+      have hr := (NoPanic.reauthorize_panics pr [] ⟨[], false⟩ h1).1
+      -- every panic of a collected iterator is the `Policy::new` site
+      unfold NoPanic.mayBeDetermining at hm
+      split at hm
+      all_goals
+        apply NoPanic.collect_panic_site _ _ s hm
+        intro o ho s' hs'
+        subst hs'
+        simp only [NoPanic.definitelySatisfiedPermits, NoPanic.definitelySatisfiedForbids, NoPanic.residualPermits,
+          NoPanic.residualForbids, List.mem_append, List.mem_map] at ho
+        have key : ∀ eff id e, NoPanic.PolOutcome.panic s' = NoPanic.constructPolicy eff id e → s' = NoPanic.policyNewSite := by
+          intro eff id e he
+          unfold NoPanic.constructPolicy at he
+          split at he
+          · injection he
+          · cases he
+        first
+          | (rcases ho with (⟨_, _, he⟩ | ⟨_, _, he⟩) | ⟨_, _, he⟩ <;> exact key _ _ _ he.symm)
+          | (rcases ho with ⟨_, _, he⟩ | ⟨_, _, he⟩ <;> exact key _ _ _ he.symm)
+  · have hp : (NoPanic.mustBeDetermining pr).isPanic = false := NoPanic.mustBeDetermining_safe pr
+    unfold NoPanic.mustBeDetermining NoPanic.definitelySatisfiedPermits NoPanic.definitelySatisfiedForbids
+    have e1 : pr.satisfiedPermits = [] := by decide +kernel
+    have e2 : pr.satisfiedForbids = [] := by decide +kernel
+    rw [e1, e2]
+    simp [NoPanic.collect]
+
+-- non-vacuity of `no_panic_partial_response`: the C13 example (unknown typed principal, a residual permit, a false forbid)
+example :
+    let preq : PRequest := ⟨.unknown (some "U"), .known ⟨"A", "x"⟩, .known ⟨"R", "r"⟩, some (.value [])⟩
+    let p1 : Policy := ⟨"p1", .permit, .unaryApp .not (.hasAttr (.var .principal) "blocked"), []⟩
+    let p2 : Policy := ⟨"p2", .forbid, .hasAttr (.var .context) "x", []⟩
+    (isAuthorizedCore [] preq ⟨[], false⟩ [p1, p2]).residualPoliciesPanic = false ∧
+    (isAuthorizedCore [] preq ⟨[], false⟩ [p1, p2]).residualPermits.length = 1 := by
+  intro preq p1 p2
+  exact ⟨by decide +kernel, by decide +kernel⟩
+
+/-! ### (h) `ast::PolicySet` (cedar-policy-core/src/ast/policy_set.rs) — proved in C08, cited here
+
+`unlink`: `panic!("No template found for linked policy")`; `remove_template`: `panic!("Found in template_to_links_map but not in
+templates")`; `merge_policyset`: `unwrap` of `new_template_id`. The mirrors are in `Cedar/PolicySet.lean`. -/
+
+/-- under the policy-set invariant no core operation reaches a `panic!` site (`Cedar.C08.no_panic`) -/
+theorem no_panic_policyset_op (ps : PolicySet) (op : CoreOp) (wf : C08.Invariant ps) (m : String) :
+    (ps.applyOp op).err ≠ some (.panic m) :=
+  C08.no_panic ps op wf m
+
+/-- and the invariant holds after every admissible history from the empty set (`Cedar.C08.history_inv`): no sequence of
+public operations reaches them -/
+theorem no_panic_policyset_history (ops : List CoreOp) (adm : PolicySet.admissibleHist {} ops) (op : CoreOp) (m : String) :
+    ((PolicySet.run {} ops).applyOp op).err ≠ some (.panic m) :=
+  C08.no_panic _ op (C08.history_inv ops adm) m
+
+/-- `merge_policyset` never panics, for arbitrary arguments (`Cedar.C08.merge_no_panic_fail_unchanged`) -/
+theorem no_panic_policyset_merge (ps other : PolicySet) (rename : Bool) (m : String) :
+    (ps.merge other rename).err ≠ some (.panic m) :=
+  (C08.merge_no_panic_fail_unchanged ps other rename).1 m
+
+/-! ### (i) string unescaping: ranges and slices (cedar-policy-core/src/parser/unescape.rs over rustc_literal_escaper 0.0.8)
+
+Mirror `Cedar/NoPanic/Unescape.lean`: `Unescape::unescape` with the `Chars` iterator explicit, so that every callback range is
+computed by the crate's own `src.len() - chars.as_str().len() - c.len_utf8()` arithmetic (usize underflow = `.panic`), ALL
+callbacks are produced (the loop continues after an error), `skip_ascii_whitespace`'s `split_at` is a site; then
+`to_pattern`'s `&bytes[range.clone()]` and `Display for UnescapeError`'s `&self.input[self.range.clone()]` over every stored
+error. (`extensions/decimal.rs` uses `caps.get(1).ok_or_else(..)?`, not `unwrap`: it has no panic site.) -/
+
+open Cedar.NoPanic in
+/-- every range handed to the callback is cut out by a decomposition `src = pre ++ mid ++ post`: ordered, in bounds, both ends
+on char boundaries — whatever multi-byte characters and broken escapes the input contains; the loop's fuel suffices -/
+theorem unescape_ranges_on_boundaries (src : List Char) :
+    ∃ cbs, unescapeCallbacks src = .done cbs ∧
+      ∀ cb ∈ cbs, byteRangeOk src cb.start cb.stop = true ∧ ∃ mid, sliceRange src cb.start cb.stop = some mid := by
+  obtain ⟨cbs, hc, hg⟩ := unescapeCallbacks_ok src
+  refine ⟨cbs, hc, fun cb hcb => ?_⟩
+  obtain ⟨mid, h1, h2⟩ := (hg cb hcb).slice
+  exact ⟨h2, mid, h1⟩
+
+open Cedar.NoPanic in
+/-- `to_unescaped_string` / `to_pattern` followed by `to_string()` of every error: no slice, no subtraction can panic -/
+theorem no_panic_unescape_slices (src : List Char) (pat : Bool) :
+    (∀ site, unescapeSlices src pat ≠ .panic site) ∧ unescapeSlices src pat ≠ .fuel := by
+  obtain ⟨acc, shown, h⟩ := unescapeSlices_ok src pat
+  rw [h]
+  exact ⟨fun _ h => SliceOutcome.noConfusion h, fun h => SliceOutcome.noConfusion h⟩
+
+-- non-vacuity: several errors in one input, multi-byte chars before / inside / after the reported ranges, `\*` in both modes,
+-- backslash-newline continuation before a multi-byte char; and the slice sites are real (offsets inside `é` fail)
+open Cedar.NoPanic in
+example : unescapeSlices "a\\*b\\qé\\u{110000}x\\".toList true =
+    .ret false ["\\q".toList, "\\u{110000}".toList, "\\".toList] := by decide +kernel
+open Cedar.NoPanic in
+example : unescapeSlices "a\\*".toList false = .ret false ["\\*".toList] := by decide +kernel
+open Cedar.NoPanic in
+example : unescapeSlices "é\\é😀".toList false = .ret false ["\\é".toList] := by decide +kernel
+open Cedar.NoPanic in
+example : unescapeSlices "é\\\n  \t é\\xzz".toList false = .ret false ["\\xz".toList] := by decide +kernel
+open Cedar.NoPanic in
+example : unescapeSlices "é\\n\\u{1F600}".toList false = .ret true [] := by decide +kernel
+open Cedar.NoPanic in
+example : sliceRange "é".toList 0 1 = none := by decide +kernel
+open Cedar.NoPanic in
+example : sliceRange "aé".toList 2 3 = none := by decide +kernel
+open Cedar.NoPanic in
+example : byteRangeOk "aé".toList 2 4 = false := by decide +kernel
 
 end Cedar.C20
